@@ -36,9 +36,10 @@ class Contract:
         self.uses = list(uses)
         self.stub = stub
         self.doc = doc
+        self.replays = 0  # minimum number of concrete replays per scenario (run-time contracts)
 
 
-def contract(qualname, props, scenarios=None, uses=(), stub=None, name=None):
+def contract(qualname, props, scenarios=None, uses=(), stub=None, name=None, replays=0):
     """name: distinguishes several contracts on the same function (e.g. a history contract)"""
     key = qualname if name is None else f"{qualname}@{name}"
 
@@ -46,6 +47,7 @@ def contract(qualname, props, scenarios=None, uses=(), stub=None, name=None):
         if key in CONTRACTS:
             raise RuntimeError(f"duplicate contract {key}")
         CONTRACTS[key] = Contract(qualname, fn, props, scenarios, uses, stub, fn.__doc__ or "", key)
+        CONTRACTS[key].replays = replays
         return fn
 
     return deco
